@@ -893,10 +893,10 @@ func asymmetryClass(p genDecl) (string, []string) {
 		return "C04 string format: StringField.format is not written to the descriptor and does not read back", []string{item + ".string.format"}
 	case t.Kind == TAny && (t.AnyOD || len(t.AnyT) > 0) && p.P.PK != PSingle:
 		return "C04 array of any with onlyDefined / types: (j5.ext.v1.field).any is replaced by the array annotation", []string{item + ".any.onlyDefined", item + ".any.types"}
-	case t.Kind == TKey && t.KF == KCustom:
-		return "C04 key:custom: the pattern is written as (buf.validate.field).string.pattern and not read back as a key format", []string{item + ".key", item + ".string"}
-	case t.Kind == TKey && t.KF == KInformal:
-		return "C04 key:informal: reads back as a key without format (or as a string inside an array)", []string{item + ".key", item + ".string"}
+	case t.Kind == TKey && (t.KF == KCustom || t.KF == KInformal) && p.P.PK != PSingle:
+		return "C04 array of key:custom / key:informal: the format lives in (j5.ext.v1.field).key, which the array annotation replaces", []string{item + ".key", item + ".string"}
+	case t.Kind == TKey && t.KF == KCustom && t.List != nil:
+		return "C04 key:custom with list rules: written as a unique_string foreign key, reads back as key:informal", []string{item + ".key.format"}
 	case t.Kind == TKey && t.KF == KNone && t.List != nil:
 		return "C04 key without format but with list rules: reads back as key:informal", []string{item + ".key.format"}
 	case t.Kind == TKey && t.KF == KNone && p.P.PK != PSingle && t.Entity == nil:
